@@ -908,7 +908,7 @@ func signedRoundTrip(x *mon.Ctx) {
 // signedAlter: every single-byte substitution of honest messages.
 func signedAlter(x *mon.Ctx) {
 	w := setup(x)
-	n := x.Scale(170, 4000)
+	n := x.Scale(210, 3200)
 	for i := 0; i < n; i++ {
 		lens := sweepLens
 		if i%9 == 8 {
